@@ -178,6 +178,11 @@ def expressions(depth):
         for e in level:
             new.append("-(%s)" % e)
             new.append("sqrt(abs(%s))" % e)
+            # Python's builtins keep their meaning inside an expression (numpy has functions of the same names)
+            new.append("max(%s, 0)" % e)
+            new.append("min(%s, 0.5)" % e)
+            new.append("round(%s, 1)" % e)
+            new.append("int(%s)" % e)
         for a, b in itertools.product(allx, allx):
             for op in BINOPS:
                 new.append("(%s)%s(%s)" % (a, op, b))
@@ -207,7 +212,7 @@ def free_vars(expr):
 
 
 def py_eval(expr, x, y):
-    ns = {"sqrt": math.sqrt, "abs": abs, "x": x, "y": y}
+    ns = {"sqrt": math.sqrt, "abs": abs, "max": max, "min": min, "round": round, "int": int, "x": x, "y": y}
     try:
         return ("ok", eval(expr, {"__builtins__": {}}, ns))
     except Exception as e:
@@ -404,7 +409,7 @@ def run(tier, seed):
     # thorough: the complete depth-2 closure of the grammar (~1.6e5 expressions)
     if tier == "quick":
         d1 = expressions(1)
-        unary = [e for e in d1 if e.startswith(("-(", "sqrt("))] + ATOMS
+        unary = [e for e in d1 if e.startswith(("-(", "sqrt(", "max(", "min(", "round(", "int("))] + ATOMS
         d2 = []
         for a, b in itertools.product(unary, unary):
             for op in BINOPS:
@@ -412,6 +417,8 @@ def run(tier, seed):
         for e in d1:
             d2.append("-(%s)" % e)
             d2.append("sqrt(abs(%s))" % e)
+            d2.append("max(%s, 0)" % e)
+            d2.append("min(%s, 0.5)" % e)
         exprs = list(dict.fromkeys(d1 + d2))
     else:
         exprs = expressions(2)
